@@ -10,7 +10,7 @@ SPELL = ["Blue", "blue", "BLUE", "bLuE", "12", "-", "", "été", "ÉTÉ", "K", "
 
 def model(tier):
     cfg = core.workdir("mc_" + PROP) + "/MC_FromStr.cfg"
-    consts = dict(Size=1 if tier == "quick" else 2, Dedup=True)
+    consts = dict(Size=1 if tier == "quick" else 2, Dedup=True, Overlap=True)
     core.write_cfg(cfg, constants=consts, invariants=["PhfCompiles", "ExpansionIsSpec", "NeverDisabled"])
     res = core.tlc_mc("MC_FromStr.tla", cfg, "mc_" + PROP, workers=6, timeout=7200, xmx="12g")
     for a in ("PushKeys", "PushArms", "TakeDefault", "SkipDisabled"):
@@ -45,6 +45,10 @@ def candidates(rng, n):
                                  aci=eaci))
     base.append(enum(0, [variant("Known", ser=["known"], aci=1), variant("Other", "tuple", [field("String")], default=True)]))
     base.append(enum(0, [variant("Same", ser=["same"], ts="same")]))            # the same literal twice on one variant
+    # overlapping spellings on which first-match-wins is still well defined for both parsers (PhfConsistent)
+    base.append(enum(0, [variant("LegacyGet", ser=["get"]), variant("Get", aci=1), variant("Put", ser=["put", "PUT"])]))
+    base.append(enum(0, [variant("Head", aci=0, ser=["head"]), variant("HEAD"), variant("Tail")], aci=True))
+    base.append(enum(0, [variant("A", ser=["x"], aci=1), variant("B", ser=["X"], aci=1), variant("C", ser=["x"])]))
     base.append(enum(0, []))
     for E in SC.dictionary(1):
         base.append(fieldless(copy.deepcopy(E)))
@@ -84,6 +88,7 @@ def run(tier, seed, rep):
     rng = random.Random(seed * 86028121 + 17)
     r = PC.run_parse_check(PROP, "c16", rep, candidates(rng, sz["sample"]), rng, seed, sz["cap"], sz["flips"],
                            lambda: model(tier), features=("derive", "phf"), mismatch_key=key,
+                           in_domain=lambda f: f["wf"] and (f["no"] or f["pc"]),
                            what="phf-backed parser differs from the plain one (ParseSpec)")
     twins = sum(1 for E in r["defs"] if E.get("twin_of") in r["by_id"])
     rep.cov["twin_pairs"] = twins
